@@ -313,6 +313,16 @@ def two_asset_income(e_grid, tax, w, N):
     return z_grid
 
 twoasset = hetblocks.hh_twoasset.hh.add_hetinputs([two_asset_income, two_asset_grids])
+
+def two_asset_grids_dyadic(nB, nA, nK, kmax, nZ, rho_z, sigma_z):
+    """grids whose spacings are powers of two (0, 1/4, 3/4, 7/4, ...): lottery weights are then dyadic numbers, which keeps exact rational replays of the forward pass cheap"""
+    b_grid = 0.25 * (2.0 ** np.arange(nB) - 1.0)
+    a_grid = 0.5 * (2.0 ** np.arange(nA) - 1.0)
+    k_grid = grids.agrid(amax=kmax, n=nK)[::-1].copy()
+    e_grid, _, Pi = grids.markov_rouwenhorst(rho=rho_z, sigma=sigma_z, N=nZ)
+    return b_grid, a_grid, k_grid, e_grid, Pi
+
+twoasset_dyadic = hetblocks.hh_twoasset.hh.add_hetinputs([two_asset_income, two_asset_grids_dyadic])
 # ---- the same two-asset household as a stage block with a two-dimensional continuous choice ----
 from sequence_jacobian.blocks.support.stages import Continuous2D
 _ta_raw = hetblocks.hh_twoasset.hh.backward_fun.f
